@@ -26,7 +26,7 @@ import (
 
 func TestVerifC11SchedIssue(t *testing.T) {
 	L := ev.Begin("C11", "c11-issue", "model_checking",
-		"controlled scheduler over VaultPKISource.Issue + cert.TLSConfig + Store (mutex, go statement and channel operations of Issue rewritten; Vault answered by an in-process fake of pki/issue): 2-3 handshake threads ask a strict listener for different names the store does not hold, each makes the source issue a certificate and publish the set of everything issued so far, the store's goroutine applies what arrives; every interleaving up to the preemption bound. oracle at quiescence: every name a handshake got a certificate for is answered from the store without a further issue request (the most recently produced set holds them all), with the certificate issued for it")
+		"controlled scheduler over VaultPKISource.Issue + cert.TLSConfig + Store (mutex, go statement and channel operations of Issue rewritten; Vault answered by an in-process fake of pki/issue): 2-3 handshake threads ask a strict listener for different names the store does not hold, each makes the source issue a certificate and publish the set of everything issued so far, the store's goroutine applies what arrives; every interleaving up to the preemption bound. oracle at quiescence: every name a handshake got a certificate for is answered from the store without a further issue request (the most recently produced set holds them all), with the certificate issued for it; plus (free-running) a role whose certificates live 30 minutes, less than the minimal refresh time of one hour: at most 3 issue requests in the 1.5s after the first issue (no spinning)")
 	names := []string{"a.example", "b.example", "c.example"}
 	type kp struct{ certPEM, keyPEM string }
 	issued := map[string]kp{}
@@ -122,6 +122,45 @@ func TestVerifC11SchedIssue(t *testing.T) {
 				d["further_issue_requests"] = extra
 				x.Fail("set-in-effect-is-not-the-most-recently-produced-one", d)
 			}
+		}
+	}
+	// a PKI role that issues certificates which do not live longer than the refresh time (30 minutes; the source
+	// refreshes one hour before the end at the earliest): the source must not re-issue in a loop
+	// (free-running pass only: the re-issue timers are real and would fire into later controlled executions)
+	if si0, _ := ev.Shard(); si0 == 0 && vsched.Free() {
+		short := c11MakeValid("issued-short.example", "short.example", time.Now().Add(-time.Minute), time.Now().Add(30*time.Minute), "short.example")
+		var cp, kpm []byte
+		rest := short.pem
+		for {
+			var b *pem.Block
+			b, rest = pem.Decode(rest)
+			if b == nil {
+				break
+			}
+			if b.Type == "CERTIFICATE" {
+				cp = pem.EncodeToMemory(b)
+			} else {
+				kpm = pem.EncodeToMemory(b)
+			}
+		}
+		issued["short.example"] = kp{string(cp), string(kpm)}
+		src := NewVaultPKISource()
+		src.Client = &vaultClient{client: client}
+		src.CertPath = "pki/issue/fabio"
+		go func() {
+			for range src.Certificates() {
+			}
+		}()
+		before := atomic.LoadInt64(&requests)
+		_, err := src.Issue("short.example")
+		time.Sleep(1500 * time.Millisecond)
+		n := atomic.LoadInt64(&requests) - before
+		L.Case()
+		L.NontrivialKey("short-lived-certificate")
+		d := map[string]interface{}{"certificate_lifetime": "30m", "refresh": "1h (the minimum)", "issue_requests_within_1.5s": n, "err": fmt.Sprint(err)}
+		L.Sample(d)
+		if n > 3 {
+			L.Violation("source-spins-re-issuing-a-short-lived-certificate/issue", d)
 		}
 	}
 	si, sn := ev.Shard()
